@@ -8,6 +8,24 @@ ENGINES = [
 ]
 NOT_APPLICABLE = {}
 CLAIMED = {
+ "C05": {
+  "engine": "tlc + csl-conform (spec/lib/LedgerRules.tla, CBOR.tla, Value.tla; spec/sys/TxBuilder.tla; spec/mc/MC_TxBuilder.tla; spec/trace/Trace_TxBuilder.tla; harness builder driver)",
+  "technique": "L1 TLA+ model of the builder's accounting model-checked against Balanced for every order of issuing up to 4-5 operations; each model history and seeded random histories are replayed on the real TransactionBuilder; TLC parses the BYTES of every transaction built after a successful balancing call with its own CBOR grammar, values inputs in the scenario's UTxO environment, recomputes deposits/refunds with its own ledger table and checks consumed = produced for lovelace and every asset",
+  "text": "Exhaustive on the model over operation orders; trace validation of every built transaction (about 2.7k scenarios quick, 26k thorough) against the ledger's preservation-of-value rule evaluated on emitted bytes. Not a proof for all histories.",
+  "note": "Trusted: TLC, CBOR.tla, the ledger rules in LedgerRules.tla, harness logging (--selftest adds one lovelace to every UTxO and must be rejected). Plutus items are covered by the C09/C10/C18 scenarios. When build_tx refuses (fee/balance validation) the unvalidated build_tx_unsafe result is judged as well.",
+ },
+ "C06": {
+  "engine": "tlc + csl-conform (spec/lib/LedgerRules.tla, CBOR.tla, Value.tla; spec/sys/TxBuilder.tla; spec/mc/MC_TxBuilder.tla; spec/trace/Trace_TxBuilder.tla; harness builder driver)",
+  "technique": "same traces as C05; the harness attaches real vkey and bootstrap signatures through FixedTransaction; TLC recomputes the required signer set from the emitted body and the environment (tool error if the harness signed otherwise), measures the signed byte length and checks fee >= a*len+b; SetFee/SetMinFee are state of the L0 machine (fixed fee used exactly, requested minimum honoured)",
+  "text": "Trace validation of the fee of every transaction built after successful balancing against the linear minimum fee of the really signed bytes, across coin/fee width classes, 1-6 signers with overlaps, Byron witnesses, change layouts none/one/several/burn.",
+  "note": "Trusted: as C05 plus the library's Ed25519 signing (only the size matters here) and the key table re-checked with hashlib. Script execution and reference-script fee parts are not yet exercised by these scenarios (no Plutus inputs): planned with C09/C10/C18.",
+ },
+ "C07": {
+  "engine": "tlc + csl-conform (spec/lib/LedgerRules.tla, CBOR.tla, Value.tla; spec/sys/TxBuilder.tla; spec/mc/MC_TxBuilder.tla; spec/trace/Trace_TxBuilder.tla; harness builder driver)",
+  "technique": "same traces as C05; for every output of every built transaction TLC measures the serialized output and value spans in the emitted bytes and checks coin >= coins_per_byte*(160+size), value size <= max_value_size, signed size <= max_tx_size, over parameter sets cpb in {0,1,4310,34482}, max_value_size in {200,500,5000}, max_tx_size in {4000,16384}",
+  "text": "Trace validation of min-ADA / value-size / transaction-size on every output the builder accepted or created (requested, change incl. multi-output asset change, collateral return set by a helper).",
+  "note": "Trusted: as C05. The stand-alone min_ada_for_output bracket (c <= bound at 8-byte coin) is not yet validated separately (planned Trace_MinAda). Raw set_collateral_return is out of scope by DESIGN section 3 C07.",
+ },
  "C08": {
   "engine": "tlc + csl-conform (spec/sys/CoinSelection.tla, spec/mc/MC_CoinSelection.tla, spec/trace/Trace_CoinSelection.tla; RNG hook rust/src/verif_hooks.rs)",
   "technique": "L1 TLA+ model of random-improve + fee top-up with every gen_range a nondeterministic choice, model-checked exhaustively against L0 (Sound, NoDoubleCount, Bookkeeping); every model behaviour is replayed through the scriptable RNG hook and compared; independently the harness enumerates ALL draw scripts on the real code depth-first (stateless model checking of the implementation) for model-generated and random scenarios; each leaf is validated by TLC against L0 using the real inputs valued in the scenario's UTxO environment",
